@@ -302,6 +302,17 @@ func PgBooleanOperand(stmt string) bool {
 		}
 		return false
 	}
+	isCollateNode := func(v interface{}) bool {
+		m, ok := v.(map[string]interface{})
+		if !ok {
+			return false
+		}
+		if n, ok := m["Node"].(map[string]interface{}); ok {
+			m = n
+		}
+		_, ok = m["CollateClause"]
+		return ok
+	}
 	var rec func(v interface{})
 	rec = func(v interface{}) {
 		switch t := v.(type) {
@@ -311,6 +322,11 @@ func PgBooleanOperand(stmt string) bool {
 					switch k {
 					case "AExpr":
 						if isBoolNode(m["lexpr"]) || isBoolNode(m["rexpr"]) {
+							found = true
+						}
+						// a COLLATE clause as operand of an operator: -(a collate c) is deparsed as - a COLLATE c,
+						// which PostgreSQL reads as (-a) COLLATE c (found by the thorough tier, same defect)
+						if isCollateNode(m["lexpr"]) || isCollateNode(m["rexpr"]) {
 							found = true
 						}
 						// LIKE / ILIKE / SIMILAR / BETWEEN / IN … (kind ≠ AEXPR_OP = 1) with an operator expression as operand
